@@ -294,23 +294,56 @@ func runPlan(c *pbt.Case, p Plan) {
 		}
 		lastSample = now
 		timed := now.After(graceUntil)
-		e := derive(cl.Svc.Calls())
-		holder, _ := cl.Svc.Holder()
+		// What a node says is read first, the lease service's log after it: the grant a
+		// primary acts on is in the log before the node can know of it, so the log read
+		// afterwards is complete for everything the node said. (Read the other way round, a
+		// node that acquires the lease between the two reads looks like a primary the
+		// service never heard of.) A second copy of the log from before the reads tells
+		// whether the lease a node holds changed while it was being looked at.
+		before := derive(cl.Svc.Calls())
+		type seen struct {
+			up, primary bool
+			ctx         context.Context
+			local       string
+		}
+		obs := make([]seen, len(nodes))
 		for i, n := range nodes {
 			if !n.Up {
 				continue
 			}
+			o := seen{up: true, primary: n.Store.IsPrimary()}
+			if o.primary {
+				o.ctx = n.Store.PrimaryCtx(context.Background())
+			}
+			o.local = n.Store.ClusterID()
+			obs[i] = o
+		}
+		e := derive(cl.Svc.Calls())
+		for i, n := range nodes {
+			if !obs[i].up {
+				continue
+			}
 			nc := p.Nodes[i]
-			isPrimary := n.Store.IsPrimary()
+			isPrimary := obs[i].primary
+			// the lease the node held, by the log, all the while it was looked at ("" if none, or if it changed)
+			stable := e.lease[n.Name]
+			if before.lease[n.Name] != stable {
+				stable = ""
+			}
 			// --- primary only while entitled by the service's own record ---
 			if isPrimary {
 				if timed && e.lease[n.Name] == "" && now.Sub(e.lostAt[n.Name]) > 300*time.Millisecond {
+					if e.lostAt[n.Name].IsZero() {
+						c.Failf("C08/primary-without-lease", "%s: node %s reports itself primary; by the lease service's log it was never granted a lease", when, n.Name)
+					}
 					c.Failf("C08/primary-without-lease", "%s: node %s reports itself primary; by the lease service's log it has held no lease since %s ago", when, n.Name, now.Sub(e.lostAt[n.Name]).Round(time.Millisecond))
 				}
 				if t0, failing := e.renewErr[n.Name]; timed && failing && now.Sub(e.renewOK[n.Name]) > ttl+2500*time.Millisecond {
 					c.Failf("C08/primary-beyond-ttl", "%s: node %s is still primary %s after its last successful renewal (renewals failing since %s, TTL %s)", when, n.Name, now.Sub(e.renewOK[n.Name]).Round(time.Millisecond), now.Sub(t0).Round(time.Millisecond), ttl)
 				}
-				pctxs[n] = append(pctxs[n], pctx{ctx: n.Store.PrimaryCtx(context.Background()), lease: e.lease[n.Name]})
+				if stable != "" {
+					pctxs[n] = append(pctxs[n], pctx{ctx: obs[i].ctx, lease: stable})
+				}
 			}
 			// --- primary-scoped contexts end with the lease they were made under ---
 			for _, pc := range pctxs[n] {
@@ -326,9 +359,9 @@ func runPlan(c *pbt.Case, p Plan) {
 			// (judged against the cluster id the service had when it granted the lease the node
 			// holds: a scripted wipe and re-initialisation of the service afterwards does not
 			// make a node that is still inside its TTL a primary "for" the new cluster)
-			local := n.Store.ClusterID()
-			if grantID := cl.Svc.ClusterIDAtGrant(n.Name, e.lease[n.Name]); isPrimary && e.lease[n.Name] != "" && grantID != "" && grantID != local {
-				c.Failf("C08/primary-for-foreign-cluster", "%s: node %s (cluster %q) is primary under lease %s, which the service granted as a lease of cluster %s", when, n.Name, local, e.lease[n.Name], grantID)
+			local := obs[i].local
+			if grantID := cl.Svc.ClusterIDAtGrant(n.Name, stable); isPrimary && stable != "" && grantID != "" && grantID != local {
+				c.Failf("C08/primary-for-foreign-cluster", "%s: node %s (cluster %q) is primary under lease %s, which the service granted as a lease of cluster %s", when, n.Name, local, stable, grantID)
 			}
 			pm := n.Store.PosMap()
 			// (whom a node replicates from is the node its stream is open to - which can be a
@@ -355,7 +388,6 @@ func runPlan(c *pbt.Case, p Plan) {
 			}
 			lastPos[n] = pm
 		}
-		_ = holder
 	}
 
 	settle := func(d time.Duration) { time.Sleep(d) }
